@@ -94,6 +94,7 @@ def run(ctx):
     for i in range(ctx.scale(60, 1500)):
         run_shared_context(ctx, ctx.rng.randrange(1 << 30), ctx.rng.choice([2, 2, 3]))
     comp_engine.run(ctx, "C11", **comp_engine.PARAMS.get("C11", {}))
+    comp_engine.extra(ctx, "C11")
     # map/parallel: every update the real SDK sends under a schedule is accepted by the contract backend (the monitor)
     from harness import comp_executor
     comp_executor.run_prop(ctx, "C11", n_quick=100, n_thorough=2500)
